@@ -105,3 +105,101 @@ class OpNotifBounded:
     def post_effect(stack, stack0, condition_stack, condition_stack0, flags, segwit_version):
         s, c, r = _if_model(stack0, condition_stack0, flags, segwit_version, True)
         return stack == s and condition_stack == c
+
+
+# ---------------------------------------------------------------- the interpreter's counters (C08)
+@contract("btclib.script.engine.script.script_op_count", types=dict(count="int", increment="int"), props="C08 C19")
+class ScriptOpCount:
+    """Core: `if (opcode > OP_16 && ++nOpCount > MAX_OPS_PER_SCRIPT)` / `nOpCount += nKeysCount`:
+    the sum is returned when it is at most 201 and is an error above"""
+
+    def raises_BTClibValueError(count, increment):
+        return count + increment > 201
+
+    def post_sum(count, increment, result):
+        return result == count + increment
+
+
+@contract("btclib.script.engine.script.assert_pub_key_num", types=dict(pub_key_num="int"), props="C08 C19")
+class AssertPubKeyNum:
+    """Core's SCRIPT_ERR_PUBKEY_COUNT: `nKeysCount < 0 || nKeysCount > MAX_PUBKEYS_PER_MULTISIG`"""
+
+    def raises_BTClibValueError(pub_key_num):
+        return pub_key_num < 0 or pub_key_num > 20
+
+
+@contract("btclib.script.engine.script.assert_signature_num", types=dict(signature_num="int", pub_key_num="int"), props="C08 C19")
+class AssertSignatureNum:
+    """Core's SCRIPT_ERR_SIG_COUNT: `nSigsCount < 0 || nSigsCount > nKeysCount`"""
+
+    def raises_BTClibValueError(signature_num, pub_key_num):
+        return signature_num < 0 or signature_num > pub_key_num
+
+
+@contract("btclib.script.engine.script_op_codes.assert_stack_size", types=dict(stack="list[bytes;0..3]", altstack="list[bytes;0..3]"), props="C08")
+class AssertStackSizeSmall:
+    """never an error while stack and altstack together hold at most 1000 elements (small lists:
+    the bound itself is exercised by the spend-level stand-ins at 999..1001 elements)"""
+
+    def raises_BTClibValueError(stack, altstack):
+        return False
+
+
+# ---------------------------------------------------------------- CheckPubKeyEncoding, deductive
+from btclib.script.engine.flags import ScriptFlag  # noqa: E402
+
+K0 = ScriptFlag(0)
+KS = ScriptFlag.STRICTENC
+KW = ScriptFlag.WITNESS_PUBKEYTYPE
+KSW = ScriptFlag.STRICTENC | ScriptFlag.WITNESS_PUBKEYTYPE
+KFLAGS = "oneof[live(contracts.c_script_num.K0)|live(contracts.c_script_num.KS)|live(contracts.c_script_num.KW)|live(contracts.c_script_num.KSW)]"
+
+
+def _compressed(k):
+    return len(k) == 33 and (k[0] == 2 or k[0] == 3)
+
+
+def _uncompressed(k):
+    return len(k) == 65 and k[0] == 4
+
+
+@contract("btclib.script.engine.script.check_pub_key", types=dict(pub_key="bytes[0..66]", segwit="bool", flags=KFLAGS), props="C08 C19")
+class CheckPubKey:
+    """Core's CheckPubKeyEncoding as the two errors, and `op_checksig`'s reading of the answer:
+    under WITNESS_PUBKEYTYPE in a segwit script anything that is not a compressed key is an
+    error; a hybrid prefix is one under STRICTENC; otherwise the answer is whether the octets have
+    the length their prefix announces (False is what STRICTENC turns into an error one level up:
+    together the two are !IsCompressedOrUncompressedPubKey)"""
+
+    def split_length(pub_key):
+        return (len(pub_key), 0, 66)
+
+    def raises_BTClibValueError(pub_key, segwit, flags):
+        strict = flags == KS or flags == KSW
+        wpk = flags == KW or flags == KSW
+        hybrid = len(pub_key) > 0 and (pub_key[0] == 6 or pub_key[0] == 7)
+        return (strict and hybrid) or (segwit and wpk and not _compressed(pub_key))
+
+    def post_well_formed(pub_key, result):
+        hybrid65 = len(pub_key) == 65 and (pub_key[0] == 6 or pub_key[0] == 7)
+        return result == (_compressed(pub_key) or _uncompressed(pub_key) or hybrid65)
+
+    def post_strictenc_reading(pub_key, segwit, flags, result):
+        # what op_checksig raises for under STRICTENC is exactly Core's PUBKEYTYPE error
+        strict = flags == KS or flags == KSW
+        return (not strict) or result == (_compressed(pub_key) or _uncompressed(pub_key))
+
+
+@contract("btclib.script.engine.tapscript.get_hashtype", types=dict(signature="bytes[0..66]"), props="C08 C09")
+class TapscriptGetHashtype:
+    """BIP341: a 64-byte signature is SIGHASH_DEFAULT; a 65th byte is the hash type and must not
+    be 0x00 (two encodings of one meaning)"""
+
+    def split_length(signature):
+        return (len(signature), 0, 66)
+
+    def raises_BTClibValueError(signature):
+        return len(signature) == 65 and signature[64] == 0
+
+    def post_type(signature, result):
+        return result == (signature[64] if len(signature) == 65 else 0)
